@@ -30,6 +30,64 @@ def _merge(p):
     return q
 
 
+def draw_reactions(rs, labels, nenv, ctyp, p, nr):
+    """nr random reactions over the given species labels (module-level so that sibling networks can be drawn)"""
+    reactions = []
+    for ri in range(nr):
+        def side():
+            order = rs.wchoice([(0, 1), (1, 4), (2, 4), (3, 2), (4, 1)])
+            order = min(order, p["max_order"])
+            dct = {}
+            for _ in range(order):
+                l = rs.choice(labels)
+                dct[l] = dct.get(l, 0) + 1
+            return dct
+        sub = side()
+        prod = side()
+        if p.get("templates", 0.0) and rs.chance(p["templates"]):
+            # structured reactions, so that non-trivial conservation laws exist
+            a, b, c = (rs.choice(labels), rs.choice(labels), rs.choice(labels))
+            tpl = rs.choice(["iso", "assoc", "dimer", "cat", "exch"])
+            if tpl == "iso":
+                sub, prod = {a: 1}, {b: 1}
+            elif tpl == "assoc":
+                sub, prod = {}, {c: 1}
+                for l in (a, b):
+                    sub[l] = sub.get(l, 0) + 1
+            elif tpl == "dimer":
+                sub, prod = {a: 2}, {b: 1}
+            elif tpl == "cat":
+                sub, prod = {}, {}
+                for l in (a, c):
+                    sub[l] = sub.get(l, 0) + 1
+                for l in (b, c):
+                    prod[l] = prod.get(l, 0) + 1
+            else:
+                sub, prod = {}, {}
+                for l in (a, b):
+                    sub[l] = sub.get(l, 0) + 1
+                for l in (b, b):
+                    prod[l] = prod.get(l, 0) + 1
+            if p["max_order"] < 2 and sum(sub.values()) > p["max_order"]:
+                sub, prod = {a: 1}, {b: 1}
+        if not sub and not prod:
+            prod = {rs.choice(labels): 1}
+
+        def kvals(order):
+            base = rs.loguniform(*p["rate_scale"]) * ctyp ** (1 - order)
+            if rs.chance(0.5):
+                ks = [base] * nenv
+            else:
+                ks = [base * rs.loguniform(0.2, 5.0) for _ in range(nenv)]
+            return [0.0 if rs.chance(p["p_zero_k"]) else v for v in ks]
+        kf = kvals(sum(sub.values()))
+        kr = kvals(sum(prod.values())) if rs.chance(0.6) else [0.0] * nenv
+        reactions.append({"label": ("r%d" % ri) if rs.chance(0.5) else None, "sub": sub, "prod": prod,
+                          "kf": kf, "kr": kr})
+
+    return reactions
+
+
 # --------------------------------------------------------------------------------------------- physical spec
 def gen_spec(rs, p=None):
     p = _merge(p)
@@ -112,59 +170,7 @@ def gen_spec(rs, p=None):
 
     # ---- reactions
     nr = rs.randint(*p["n_reactions"])
-    reactions = []
-    for ri in range(nr):
-        def side():
-            order = rs.wchoice([(0, 1), (1, 4), (2, 4), (3, 2), (4, 1)])
-            order = min(order, p["max_order"])
-            dct = {}
-            for _ in range(order):
-                l = rs.choice(labels)
-                dct[l] = dct.get(l, 0) + 1
-            return dct
-        sub = side()
-        prod = side()
-        if p.get("templates", 0.0) and rs.chance(p["templates"]):
-            # structured reactions, so that non-trivial conservation laws exist
-            a, b, c = (rs.choice(labels), rs.choice(labels), rs.choice(labels))
-            tpl = rs.choice(["iso", "assoc", "dimer", "cat", "exch"])
-            if tpl == "iso":
-                sub, prod = {a: 1}, {b: 1}
-            elif tpl == "assoc":
-                sub, prod = {}, {c: 1}
-                for l in (a, b):
-                    sub[l] = sub.get(l, 0) + 1
-            elif tpl == "dimer":
-                sub, prod = {a: 2}, {b: 1}
-            elif tpl == "cat":
-                sub, prod = {}, {}
-                for l in (a, c):
-                    sub[l] = sub.get(l, 0) + 1
-                for l in (b, c):
-                    prod[l] = prod.get(l, 0) + 1
-            else:
-                sub, prod = {}, {}
-                for l in (a, b):
-                    sub[l] = sub.get(l, 0) + 1
-                for l in (b, b):
-                    prod[l] = prod.get(l, 0) + 1
-            if p["max_order"] < 2 and sum(sub.values()) > p["max_order"]:
-                sub, prod = {a: 1}, {b: 1}
-        if not sub and not prod:
-            prod = {rs.choice(labels): 1}
-
-        def kvals(order):
-            base = rs.loguniform(*p["rate_scale"]) * ctyp ** (1 - order)
-            if rs.chance(0.5):
-                ks = [base] * nenv
-            else:
-                ks = [base * rs.loguniform(0.2, 5.0) for _ in range(nenv)]
-            return [0.0 if rs.chance(p["p_zero_k"]) else v for v in ks]
-        kf = kvals(sum(sub.values()))
-        kr = kvals(sum(prod.values())) if rs.chance(0.6) else [0.0] * nenv
-        reactions.append({"label": ("r%d" % ri) if rs.chance(0.5) else None, "sub": sub, "prod": prod,
-                          "kf": kf, "kr": kr})
-
+    reactions = draw_reactions(rs, labels, nenv, ctyp, p, nr)
     spec = {"envs": envs, "species": species, "reactions": reactions, "space": space, "state": None, "chem": None}
 
     # ---- chemostats
@@ -506,7 +512,22 @@ def gen_script(rk, spec, kind, p=None):
         tscale = 1.0 / a0 if a0 > 0 else 1.0
         dt = tscale * rk.loguniform(0.3, 3.0)       # not used by the engine for stepping
         t_end = steps * tscale
-        unit = tscale
+        # bound the expected number of events: mean-field integration of the total propensity (autocatalytic
+        # networks would otherwise turn a '30 event' script into millions of events)
+        import numpy as np
+        budget = p.get("event_budget", 8.0 * steps + 50.0)
+        x = np.array(x0, dtype=float)
+        tt, evs, hh = 0.0, 0.0, t_end / 200.0
+        for _k in range(200):
+            xc = np.maximum(x, 0.0)
+            a0k = m.a0(xc)
+            if not np.isfinite(a0k) or evs + a0k * hh > budget:
+                t_end = max(tt, hh)
+                break
+            evs += a0k * hh
+            x = xc + hh * m.f(xc)
+            tt += hh
+        unit = t_end / steps
     else:
         lam = stiffness(m)
         c = rk.loguniform(*p.get("courant", (0.01, 0.15)))
@@ -556,6 +577,15 @@ def gen_script(rk, spec, kind, p=None):
     seed = rk.bits(31) if rk.chance(p.get("p_seed", 0.9)) else None
     if rk.chance(0.1):
         seed = rk.bits(32)  # above int range: wraps in c_int
+    if seed is not None and rk.chance(0.08):
+        seed = rk.choice([0, 0, 1, 2 ** 31 - 1, 2 ** 31, 2 ** 32 - 1])   # boundary seeds (0 is a legal explicit seed)
+    if rk.chance(p.get("p_zero_tmax", 0.04)):
+        # degenerate but valid: the run is over after the first step (t_max = 0, explicitly or as the last requested time)
+        if rk.chance(0.5):
+            ts = [0.0]
+            t_max = None
+        else:
+            t_max = 0.0
     isp = p.get("isp") or rk.wchoice([("auto", 5), ("none", 1), ("redist", 1), ("Poisson", 1)])
     if kind != "euler" and isp == "none":
         # a stochastic engine fed an unprocessed state is only meaningful when that state already consists of
@@ -595,3 +625,22 @@ def render_script(ru, sp, us, rich=True, explicit_p=0.25):
     if sp["isp"] != "auto" or ru.chance(0.3):
         kw["init_state_processing"] = sp["isp"]
     return kw
+
+
+def sibling_spec(rs, spec, p=None):
+    """same species labels, environments and space, same NUMBER of reactions, but re-drawn stoichiometry and constants
+    (and state): what a second set-up on the same engine object with a related model looks like"""
+    import copy
+    p = _merge(p)
+    s = copy.deepcopy(spec)
+    labels = [x["label"] for x in s["species"]]
+    nenv = len(s["envs"])
+    m = Model(spec)
+    vtyp = float(m.V.mean())
+    ntyp = max(1.0, float(abs(m.x0).mean()))
+    s["reactions"] = draw_reactions(rs, labels, nenv, ntyp / vtyp, p, len(spec["reactions"]))
+    if s.get("state") is not None:
+        s["state"] = [v * rs.loguniform(0.5, 2.0) for v in s["state"]]
+        if p["integer_state"]:
+            s["state"] = [float(int(v + 0.5)) for v in s["state"]]
+    return s
